@@ -461,3 +461,30 @@ def _find_ctor(f, e):
         if len(defs) == 1 and is_ctor(defs[0].value):
             return defs[0].value
     return None
+
+
+def pur_arg(ctx, modules):
+    """PUR-ARG restricted to the public callables of the given modules (for properties that state
+    'the inputs are not modified' about one module; the whole-package form is pur_rules)."""
+    ctx.rule('PUR-ARG', 'no public callable of %s writes into an argument (directly, via a view, '
+             'via a callee or via an overwrite/out flag)' % '/'.join(modules))
+    E = _effects(ctx)
+    pub = [f for f in ctx.repo.public_surface() if f.module.name.split('.')[-1] in modules]
+    ctx.floor('PUR-ARG', len(pub), 1, 'public callables of %s' % '/'.join(modules))
+    for f in pub:
+        S = E.sum[f.fq]
+        params = [p for p in f.params + f.kwonly]
+        if f.cls is not None and not f.is_static:
+            params = params[1:]
+        for p in params:
+            real = [(node, reason) for node, reason, state in S.writes.get(p, [])
+                    if not (state and (f.name, p) in STATE_WHITELIST)]
+            if not real:
+                ctx.ob('PUR-ARG', True, None, 'argument %s of %s is never written' % (p, f.qualname),
+                       f=f, key='arg-%s-%s' % (f.qualname, p))
+            for node, reason in real[:3]:
+                ctx.ob('PUR-ARG', False, None, 'argument %s of %s is never written'
+                       % (p, f.qualname), f=f, node=node,
+                       key='arg-%s-%s:%s' % (f.qualname, p, norm_text(node)),
+                       why="public %s modifies its argument '%s': %s" % (f.qualname, p, reason))
+    _fixture(ctx)
